@@ -62,6 +62,8 @@ ASSUME = [
 
 
 _LOCK = threading.Lock()
+NOTE = ("-noGenerateSpecTE",)
+PROCS = min(V.NCPU, int(os.environ.get("VERIF_C07_PROCS", "8")))      # parallel TLC trace processes
 
 
 def active_models():
@@ -88,10 +90,11 @@ def model_cfg(workdir, bug, depth, emit=False):
 def run_design_models(oc, workdir, depth):
     """exhaustive check of the design model + rejection of every seeded spec mutant"""
     info = {}
-    with cf.ThreadPoolExecutor(8) as ex:
-        futs = {ex.submit(V.run_tlc, "Manifold", model_cfg(workdir, "none", depth), workdir, None, 4, 1500): "none"}
+    with cf.ThreadPoolExecutor(4) as ex:
+        # -noGenerateSpecTE: a rejected spec mutant must not leave Manifold_TTrace_* files in spec/
+        futs = {ex.submit(V.run_tlc, "Manifold", model_cfg(workdir, "none", depth), workdir, None, 4, 1500, NOTE): "none"}
         for b in SPEC_MUTANTS:
-            futs[ex.submit(V.run_tlc, "Manifold", model_cfg(workdir, b, 4), workdir, None, 1, 900)] = b
+            futs[ex.submit(V.run_tlc, "Manifold", model_cfg(workdir, b, 4), workdir, None, 1, 900, NOTE)] = b
         for f in cf.as_completed(futs):
             b, r = futs[f], f.result()
             with _LOCK:
@@ -114,7 +117,7 @@ def run_design_models(oc, workdir, depth):
 
 
 def generate_histories(oc, workdir):
-    r = V.run_tlc("Manifold", model_cfg(workdir, "none", 4, emit=True), workdir, workers=1, timeout=900)
+    r = V.run_tlc("Manifold", model_cfg(workdir, "none", 4, emit=True), workdir, workers=1, timeout=900, extra=NOTE)
     if r["rc"] != 0:
         raise V.ToolFailure(f"TLC generator failed (rc={r['rc']}):\n{r['out'][-2000:]}")
     with _LOCK:
@@ -261,7 +264,7 @@ def validate(oc, traces, chunk, workdir, timeout=3000):
         for cp, first in chunks:
             work.append((cp, first, meta, lines))
     work.sort(key=lambda w: -os.path.getsize(w[0]))
-    with cf.ThreadPoolExecutor(V.NCPU) as ex:
+    with cf.ThreadPoolExecutor(PROCS) as ex:
         futs = {ex.submit(V.validate_chunk, "TraceManifold", "TraceManifold.cfg", cp, workdir, timeout): (cp, first, meta, lines)
                 for cp, first, meta, lines in work}
         for f in cf.as_completed(futs):
